@@ -10,6 +10,14 @@ Theorem C20_source_add : forall s k, src_add s k = tc_add s k.
 Proof. exact src_add_is_model. Qed.
 Print Assumptions C20_source_add.
 
+(* ... and so is update(iterable, **kwargs): the positional source is None, a mapping (anything with a
+   callable iteritems/items: its pairs) or another iterable (its keys); then the keyword counts.
+   Regenerated with recursion on fuel; two levels suffice (the recursive call passes no keywords). *)
+Theorem C20_source_update : forall fuel s it kw, (2 <= fuel)%nat ->
+  src_update fuel s it kw = tc_adds s (src_all_keys it ++ expand kw).
+Proof. exact src_update_is_model. Qed.
+Print Assumptions C20_source_update.
+
 (* total equals the number of additions *)
 Theorem C20_total : forall w ks, tc_total (tc_adds (tc_init w) ks) = N.of_nat (length ks).
 Proof. exact total_counts_additions. Qed.
